@@ -700,8 +700,24 @@ func (w *vhWorld) step(op vhOp) (obs vhObs) {
 			}
 		}
 		w.inflight = rest
+		// E == "fit": the node's maximum packet size is the size of the largest datagram of the burst - a datagram that fills the
+		// read buffer exactly is a legitimate one (senders stop only when the NEXT entry would exceed the limit)
+		maxSize := 1400
+		if op.E == "fit" {
+			maxSize = 0
+			for _, p := range burst {
+				if l := len(p.Bytes) / 2; l > maxSize {
+					maxSize = l
+				}
+			}
+			if maxSize < 64 {
+				maxSize = 1400
+			}
+		}
 		qc := &vhQueueConn{in: make(chan []byte), idle: make(chan struct{}, len(burst)+2)}
-		pl := newPacketListener(qc, n.state, n.fd, 1400, newMetrics(), log.NewNopLogger())
+		pl := newPacketListener(qc, n.state, n.fd, maxSize, newMetrics(), log.NewNopLogger())
+		pl.maxPacketSize = 1400 // only the READ buffer is sized to fit; replies are cut as usual (a small limit would make the
+		// randomly ordered digest replies differ from run to run)
 		done := make(chan struct{})
 		go func() { pl.Serve(); close(done) }()
 		for _, p := range burst {
@@ -719,7 +735,7 @@ func (w *vhWorld) step(op vhOp) (obs vhObs) {
 		qc.mu.Lock()
 		w.sent = append(w.sent, qc.sent...)
 		qc.mu.Unlock()
-		obs.Extra = map[string]any{"burst": idxs}
+		obs.Extra = map[string]any{"burst": idxs, "max": maxSize}
 	case "join":
 		a, b := w.nodes[op.A%nn], w.nodes[op.B%nn]
 		id, err := a.g.join(b.slAddr)
